@@ -1,5 +1,6 @@
 """C11 — effective features = own + all ancestors', whatever the order of creation."""
 import json
+import random
 
 from harness import bridge, scen
 from harness.gallina import gbool, glist, gn, gstr
@@ -26,6 +27,16 @@ RULE = (
     "table, get_feature per candidate name, constructor acceptance per keyword (and read/write on the new instance), outcome kinds. "
     "Oracle-only streams: the final type system after load_typesystem(ts.to_xml()), and merge_typesystems of 2-3 random type systems "
     "over a shared pool, must satisfy the same statement (all_features = own + ancestors' features, one definition per name, constructor). "
+    "Merging as a history of definitions: 2-4 type systems that each declare an upward-closed part of one tree (chains up to depth 5) "
+    "with features f, g, h of four ranges on any level - the same name on an ancestor in one argument and on a descendant (new to "
+    "the merge or not) in another, with the same or another range, in either argument order, arguments that are TypeSystem() itself, "
+    "dense and sparse (one or two definitions per argument) - merged by merge_typesystems or, every fourth two-argument case, by "
+    "load_cas_from_json(<CAS over the second>, typesystem=<the first>). Oracle (for these and for the 2-3 random type systems above): "
+    "ValueError exactly when two declarations of one name on one inheritance chain of the merged hierarchy differ in range; otherwise "
+    "the merged types list / find / construct with exactly their own + their ancestors' declarations. When all arguments declare every "
+    "shared type with the same supertype the merge is rendered to Coq as the history of its definitions (arguments in order, a type "
+    "as soon as its supertype exists) with the single observed outcome (c_merge): both model forms must refuse somewhere in the "
+    "history exactly when the implementation raised, and answer the queries like the merged type system. "
     "Bridge (coq/Bridge.v): for every history the flattened view `flatten` of the model's final state is compared in Coq, on the "
     "observed types, (a) with the supertype chains and the ORDERED all_features read off the implementation and (b) with what "
     "harness/scen.schema_of computes for the declarations of the history (the schema all heap-level checks feed to their models): "
@@ -44,6 +55,8 @@ TRUSTED = [
     "recursion through _children) is proved equal to it under WF (C11_mechanism_agrees) and is evaluated in every correspondence case",
     "the model's initial state equals the observed TypeSystem() (extra obligation, decided by vm_compute on every run)",
     "correspondence harness harness/props/C11.py + tscommon.py; oracle = independent bookkeeping (declared supertypes + own definitions)",
+    "reading a merge as a history (harness/props/C11.py _merge_plan/_merge_linearise): the arguments' declarations, taken from the "
+    "oracle's bookkeeping of each argument, in argument order, a type as soon as its supertype exists",
     "harness/bridge.py: reading the declarations of a history (history_to_tspec) and the flattened view off the implementation's objects "
     "(impl_schema); harness/scen.schema_of is not trusted here: it is one of the three things compared",
 ]
@@ -52,7 +65,9 @@ ASSUMPTIONS = [
     "`identical` means equal range, element type (None = TOP), description and multipleReferencesAllowed; `conflicting` means a "
     "different range; for definitions in between the property is silent: the oracle accepts either a refusal or a no-op, the model "
     "follows Feature.__eq__ (description and element type compared, multipleReferencesAllowed not)",
-    "type systems built by create_type / create_feature from TypeSystem(); XML, JSON and merge constructors are C12, C13, C02",
+    "type systems built by create_type / create_feature from TypeSystem(); the XML and JSON constructors are C12 and C02; a merge is "
+    "read as the history of its arguments' definitions when the arguments agree on every supertype; which supertype wins when they "
+    "do not (re-parenting, its order dependence) is C13: there the oracle takes the chains from the merged result and accepts a refusal",
 ]
 
 INT, STR = "uima.cas.Integer", "uima.cas.String"
@@ -185,6 +200,13 @@ def generate(rng, tier):
     n_m = {"quick": 200, "thorough": 3000, "search": 2000}[tier]
     for k in range(n_m):
         yield _merge_scenario(rng)
+    # merging as a history of definitions: every argument declares a part of ONE hierarchy, so the merge is the sequence of
+    # the arguments' create_type / create_feature operations in the order of the arguments (own random stream: the streams
+    # above stay what they were)
+    sub = random.Random(rng.getrandbits(32) ^ 0xC11E3)
+    n_h = {"quick": 320, "thorough": 3000, "search": 3000}[tier]
+    for k in range(n_h):
+        yield _merge_history_scenario(sub, k)
 
 
 def _deep_tspec(rng):
@@ -256,19 +278,121 @@ def _merge_scenario(rng):
     return {"ops": [], "types": [], "fn": [], "kw": [], "merge": parts}
 
 
-# ---------------------------------------------------------------------------------------------- implementation
-def run_impl(cassis, sc):
-    if "merge" in sc:
-        tss = [T.run_ops(cassis, ops)[0] for ops in sc["merge"]]
-        try:
-            merged = cassis.merge_typesystems(*tss)
-        except ValueError:
-            return {"merge": "EValue", "closure": []}
-        return {"merge": "ok", "closure": T.closure_failures(merged)[:3]}
-    ts, outcomes, changed = T.run_ops(cassis, sc["ops"])
-    types = [n for n in sc["types"] if ts.contains_type(n, True)]
-    obs = {"out": outcomes, "changed_on_failure": changed, "types": types, "tables": [], "getf": [], "accept": [], "rw_fail": [],
-           "order": [t.name for t in ts.get_types(built_in=True)]}
+MRANGES = [INT, STR, "uima.cas.Float", "uima.tcas.Annotation"]
+
+
+def _merge_history_scenario(rng, k):
+    """2-4 type systems that each declare an upward-closed part of one tree (chains up to depth 5 under Annotation / TOP) with
+    features f, g, h on any level: the same name on an ancestor in one argument and on a (possibly new) descendant in another,
+    with the same or with another range, the ancestor's argument first or second; an argument may be TypeSystem() itself.
+    Every fourth two-argument case goes through load_cas_from_json(<CAS of the second>, typesystem=<the first>)."""
+    n = rng.randint(2, 6)
+    names, sup, depth = [], {}, {}
+    for i in range(n):
+        name = "h." + "PQRSTU"[i]
+        if names and rng.random() < 0.85:
+            par = names[-1] if rng.random() < 0.65 else rng.choice(names)
+            if depth[par] >= 5:
+                par = names[0]
+        else:
+            par = rng.choice(["uima.tcas.Annotation", "uima.tcas.Annotation", "uima.cas.TOP"])
+        names.append(name)
+        sup[name] = par
+        depth[name] = depth.get(par, 0) + 1
+    fnames = ["f", "g", "h"]
+    used = fnames[:rng.choice([1, 2, 2, 3])]              # few names: the same name meets itself along the chains
+    main = {x: rng.choice(MRANGES) for x in fnames}
+    p_other = rng.choice([0.0, 0.0, 0.1, 0.25])
+    p_part = rng.choice([0.0, 0.3, 0.6, 0.9])
+    sparse = rng.random() < 0.5
+    parts = []
+    for _ in range(rng.choice([2, 2, 2, 3, 3, 4])):
+        if rng.random() < 0.08:
+            parts.append([])
+            continue
+        keep = rng.choice([0.4, 0.7, 0.9])                 # low: short prefixes, the deeper types are new to a later argument
+        mine = dict(main)                                  # an argument that is consistent in itself but not with the others
+        if rng.random() < p_part:
+            fn = rng.choice(used)
+            mine[fn] = rng.choice([r for r in MRANGES if r != main[fn]])
+        have = []
+        for x in names:                                    # upward closed: a type only with its declared supertype
+            if (sup[x] not in names or sup[x] in have) and rng.random() < keep:
+                have.append(x)
+        feats = []
+        if sparse:                                         # one or two definitions per argument: a conflict, if any, is the
+            carriers = [rng.choice(have) for _ in range(rng.choice([1, 1, 2]))] if have else []      # only one of the merge
+        else:
+            carriers = [x for x in have for _ in range(rng.choice([0, 1, 1, 2]))]
+        for x in carriers:
+            fn = rng.choice(used)
+            feats.append(cf(x, fn, rng.choice(MRANGES) if rng.random() < p_other else mine[fn]))
+        ops = []
+        if rng.random() < 0.5:                             # features as the types are created
+            for x in have:
+                ops.append(ct(x, sup[x]))
+                ops += [f for f in feats if f["dom"] == x]
+        else:                                              # all types first, features in any order (descendant before ancestor)
+            ops = [ct(x, sup[x]) for x in have]
+            rng.shuffle(feats)
+            ops += feats
+        parts.append(ops)
+    via = "json" if len(parts) == 2 and k % 4 == 3 else "merge"
+    return {"ops": [], "types": names + ["uima.tcas.Annotation"], "fn": fnames + ["begin", "nope"],
+            "kw": fnames + ["begin", "nope", "sofa"], "merge": parts, "via": via}
+
+
+def _merge_plan(parts, part_outs):
+    """The oracle's reading of a merge (nothing of cassis, nothing of the Coq model): per argument the declared supertypes and
+    own definitions (bookkeeping of tscommon.Tree driven by the observed outcomes of the argument's own operations).
+    Returns (problem, decl): decl = per argument [(type, supertype, {feature: definition})] in registration order."""
+    decl = []
+    for k, (ops, outs) in enumerate(zip(parts, part_outs)):
+        tree = Tree()
+        for i, (op, out) in enumerate(zip(ops, outs)):
+            allowed = tree.apply(op, out)
+            if out not in allowed:
+                return f"outcome: argument {k}, operation {i} {json.dumps(op)} gave {out}, the property allows {sorted(allowed)}", None
+        decl.append([(n, tree.sup[n], dict(tree.own[n])) for n in tree.sup if n not in T.BUILTIN_NAMES])
+    return None, decl
+
+
+def _merge_linearise(decl):
+    """The definitions a merge performs, as one history on a fresh TypeSystem(): the arguments' types in the order of the
+    arguments, a type as soon as its supertype is there (create_type the first time a name comes, then its own features).
+    Only used when every name is declared with one supertype throughout."""
+    pending = [d for part in decl for d in part]
+    done, ops = set(), []
+    while pending:
+        rest = []
+        for (n, s, own) in pending:
+            if s not in T.BUILTIN_NAMES and s not in done:
+                rest.append((n, s, own))
+                continue
+            if n not in done:
+                ops.append(ct(n, s))
+                done.add(n)
+            for fn, (r, e, m, d) in own.items():
+                ops.append(cf(n, fn, r, e, m, d))
+        if len(rest) == len(pending):
+            return None
+        pending = rest
+    return ops
+
+
+def _merge_declared(decl):
+    sups, defs = {}, {}
+    for part in decl:
+        for (n, s, own) in part:
+            sups.setdefault(n, [])
+            if s not in sups[n]:
+                sups[n].append(s)
+            for fn, d in own.items():
+                defs.setdefault(n, {}).setdefault(fn, []).append(d)
+    return sups, defs
+
+
+def _observe(ts, sc, types, obs):
     for n in types:
         ty = ts.get_type(n)
         obs["tables"].append(sorted((T.feat_row(f) for f in ty.all_features), key=lambda r: (r[0], r[1], str(r[2]), str(r[3]))))
@@ -291,6 +415,58 @@ def run_impl(cassis, sc):
         for f in ty.all_features:
             if not hasattr(fs0, f.name):
                 obs["rw_fail"].append(f"new {n}() has no attribute {f.name}")
+
+
+MERGE_FN = ["f", "g", "begin", "nope"]
+MERGE_KW = ["f", "g", "begin", "nope", "sofa"]
+
+
+def _merge_view(sc):
+    """scenario with the queries filled in (the first merge stream carries none: the types of its pool are asked)"""
+    if sc.get("types"):
+        return sc
+    pool = []
+    for ops in sc["merge"]:
+        for op in ops:
+            if op["op"] == "ct" and op["n"] not in pool:
+                pool.append(op["n"])
+    return dict(sc, types=sorted(pool)[:8], fn=MERGE_FN, kw=MERGE_KW)
+
+
+def _run_merge(cassis, sc):
+    sc = _merge_view(sc)
+    runs = [T.run_ops(cassis, ops) for ops in sc["merge"]]
+    tss = [r[0] for r in runs]
+    obs = {"part_out": [r[1] for r in runs], "closure": [], "types": [], "tables": [], "getf": [], "accept": [], "rw_fail": [],
+           "sup": {}, "impl_schema": {}}
+    try:
+        if sc.get("via") == "json":
+            merged = cassis.load_cas_from_json(cassis.Cas(typesystem=tss[1]).to_json(), typesystem=tss[0]).typesystem
+        else:
+            merged = cassis.merge_typesystems(*tss)
+        obs["merge"] = "ok"
+    except ValueError:
+        obs["merge"] = "EValue"
+    if obs["merge"] != "ok":
+        return obs
+    obs["closure"] = T.closure_failures(merged)[:3]
+    obs["sup"] = {t.name: t.supertype.name for t in merged.get_types()}
+    types = [n for n in sc["types"] if merged.contains_type(n, True)]
+    obs["types"] = types
+    _observe(merged, sc, types, obs)
+    obs["impl_schema"] = bridge.impl_schema(merged, types)
+    return obs
+
+
+# ---------------------------------------------------------------------------------------------- implementation
+def run_impl(cassis, sc):
+    if "merge" in sc:
+        return _run_merge(cassis, sc)
+    ts, outcomes, changed = T.run_ops(cassis, sc["ops"])
+    types = [n for n in sc["types"] if ts.contains_type(n, True)]
+    obs = {"out": outcomes, "changed_on_failure": changed, "types": types, "tables": [], "getf": [], "accept": [], "rw_fail": [],
+           "order": [t.name for t in ts.get_types(built_in=True)]}
+    _observe(ts, sc, types, obs)
     # Bridge: the flattened view read off the implementation, and scen.schema_of on the declarations of the history
     obs["impl_schema"] = bridge.impl_schema(ts, types)
     tspec, dom = bridge.history_to_tspec(sc["ops"], outcomes)
@@ -314,9 +490,103 @@ def _row(name, d):
     return [name, d[0], d[1], d[2]]
 
 
+def _judge_queries(sc, obs, types, eff_of, full_rows=True):
+    """the effective feature table, get_feature and the constructor of every observed type against own + ancestors' definitions"""
+    cut = (lambda r: r) if full_rows else (lambda r: r[:2])
+    for i, n in enumerate(types):
+        eff = eff_of(n)
+        table = obs["tables"][i]
+        names = [r[0] for r in table]
+        if len(set(names)) != len(names):
+            return f"two_definitions: {n} lists {sorted(x for x in names if names.count(x) > 1)[0]} more than once: {table}"
+        want = sorted((_row(k, v) for k, v in eff.items()), key=lambda r: (r[0], r[1], str(r[2]), str(r[3])))
+        if [cut(r) for r in table] != [cut(r) for r in want]:
+            miss = [r for r in want if cut(r) not in [cut(x) for x in table]]
+            extra = [r for r in table if cut(r) not in [cut(x) for x in want]]
+            return f"effective: all_features of {n}: missing {miss[:3]}, unexpected {extra[:3]} (own + ancestors' definitions: {want[:6]})"
+        for x, g in zip(sc["fn"], obs["getf"][i]):
+            w = _row(x, eff[x]) if x in eff else None
+            if (g and cut(g)) != (w and cut(w)):
+                return f"get_feature: {n}.get_feature({x!r}) gave {g}, expected {w}"
+        for kw, a in zip(sc["kw"], obs["accept"][i]):
+            if a != (kw in eff):
+                return (f"constructor: {n}({kw}=...) was {'accepted' if a else 'rejected'} but {kw} is "
+                        f"{'an' if kw in eff else 'not an'} effective feature of {n}")
+    if obs["rw_fail"]:
+        return "instance: " + obs["rw_fail"][0]
+    return None
+
+
+def _merge_oracle(sc, obs):
+    """Merging is a sequence of definitions: the declarations of all arguments end up in one type system, so whenever two
+    declarations of one feature name that lie on one inheritance chain differ in range the merge has to raise ValueError -
+    whichever argument comes first, whether or not the descendant is new to the merge -, and when all agree it succeeds and
+    every type has its own + its ancestors' features.  Where arguments declare a type with different supertypes, which one
+    wins (or that the merge is refused) is C13's subject: the chains are then those of the merged result."""
+    sc = _merge_view(sc)
+    if obs["closure"]:
+        return "merged: " + obs["closure"][0]
+    problem, decl = _merge_plan(sc["merge"], obs["part_out"])
+    if problem:
+        return problem
+    sups, defs = _merge_declared(decl)
+    fixed = all(len(v) == 1 for v in sups.values())
+    if fixed:
+        hier = {n: v[0] for n, v in sups.items()}
+    elif obs["merge"] == "ok":
+        hier = {}
+        for n, v in sups.items():
+            if obs["sup"].get(n) not in v:
+                return f"registry: merged type {n} has supertype {obs['sup'].get(n)}, declared: {v}"
+            hier[n] = obs["sup"][n]
+    else:
+        return None
+    base = Tree()
+
+    def chain(n):  # n and its ancestors, nearest first
+        out = []
+        while n is not None and len(out) < 100:
+            out.append(n)
+            n = hier[n] if n in hier else base.sup.get(n)
+        return out
+
+    def on_chain(n, x):
+        return [(a, d) for a in chain(n) for d in (defs.get(a, {}).get(x, []) if a in hier else
+                                                   ([base.own[a][x]] if x in base.own.get(a, {}) else []))]
+
+    conflict, between = None, False
+    for n in hier:
+        for x in sorted({x for a in chain(n) for x in defs.get(a, {})}):
+            ds = on_chain(n, x)
+            for (a, d) in ds[1:]:
+                rel = Tree._rel(ds[0][1], d)
+                if rel == "conflict" and conflict is None:
+                    conflict = f"{ds[0][0]}.{x}:{ds[0][1][0]} and {a}.{x}:{d[0]} (chain of {n})"
+                between = between or rel == "between"
+    allowed = {"EValue"} if conflict else ({"ok", "EValue"} if between or not fixed else {"ok"})
+    if obs["merge"] not in allowed:
+        how = "load_cas_from_json with a base type system" if sc.get("via") == "json" else "merge_typesystems"
+        if conflict:
+            return f"merge_conflict: {how} raised no ValueError although one chain holds two definitions with different ranges: {conflict}"
+        return f"merge_refused: {how} raised ValueError although all declarations of every feature on every chain agree"
+    if obs["merge"] != "ok":
+        return None
+    types = [n for n in sc["types"] if n in hier or n in base.sup]
+    if types != obs["types"]:
+        return f"registry: merged type system disagrees on the presence of {sorted(set(types) ^ set(obs['types']))[:5]}"
+
+    def eff_of(n):
+        eff = {}
+        for a in chain(n):
+            for x, dl in (defs.get(a, {}).items() if a in hier else [(x, [d]) for x, d in base.own.get(a, {}).items()]):
+                eff.setdefault(x, dl[0])
+        return eff
+    return _judge_queries(sc, obs, types, eff_of, full_rows=not between and sc.get("via") != "json")
+
+
 def oracle(cassis, sc, obs):
     if "merge" in sc:
-        return ("merged: " + obs["closure"][0]) if obs["closure"] else None
+        return _merge_oracle(sc, obs)
     if obs.get("closure_xml"):
         return "loaded: after load_typesystem(ts.to_xml()): " + obs["closure_xml"][0]
     tree = Tree()
@@ -332,27 +602,9 @@ def oracle(cassis, sc, obs):
     types = [n for n in sc["types"] if n in tree.sup]
     if types != obs["types"]:
         return f"registry: contains_type(exact) disagrees on {sorted(set(types) ^ set(obs['types']))[:5]}"
-    for i, n in enumerate(types):
-        eff = tree.effective(n)
-        table = obs["tables"][i]
-        names = [r[0] for r in table]
-        if len(set(names)) != len(names):
-            return f"two_definitions: {n} lists {sorted(x for x in names if names.count(x) > 1)[0]} more than once: {table}"
-        want = sorted((_row(k, v) for k, v in eff.items()), key=lambda r: (r[0], r[1], str(r[2]), str(r[3])))
-        if table != want:
-            miss = [r for r in want if r not in table]
-            extra = [r for r in table if r not in want]
-            return f"effective: all_features of {n}: missing {miss[:3]}, unexpected {extra[:3]} (own + ancestors' definitions: {want[:6]})"
-        for x, g in zip(sc["fn"], obs["getf"][i]):
-            w = _row(x, eff[x]) if x in eff else None
-            if g != w:
-                return f"get_feature: {n}.get_feature({x!r}) gave {g}, expected {w}"
-        for kw, a in zip(sc["kw"], obs["accept"][i]):
-            if a != (kw in eff):
-                return (f"constructor: {n}({kw}=...) was {'accepted' if a else 'rejected'} but {kw} is "
-                        f"{'an' if kw in eff else 'not an'} effective feature of {n}")
-    if obs["rw_fail"]:
-        return "instance: " + obs["rw_fail"][0]
+    bad = _judge_queries(sc, obs, types, tree.effective)
+    if bad:
+        return bad
     # Bridge: scen.schema_of (independent of cassis except for the built-in table) against the implementation's own objects
     ss = obs.get("scen_schema")
     if ss is not None:
@@ -380,7 +632,7 @@ def gof1(r):
 
 def render(sc, obs):
     if "merge" in sc:
-        return None          # oracle-only stream
+        return _render_merge(sc, obs)
     parts = [
         glist([gop(o) for o in sc["ops"]]),
         glist([gout(o) for o in obs["out"]]),
@@ -401,10 +653,46 @@ def render(sc, obs):
     else:
         scen_term = f"(Some {bridge.g_schema_compact(ss, [n for n in names if n in ss])})"
     head = "mkCase " + " ".join(f"({p})" for p in parts)
-    return f"(let si := {bridge.g_schema_compact(impl, names)} in {head} si {scen_term} {gbool(exact)})"
+    return f"(let si := {bridge.g_schema_compact(impl, names)} in {head} si {scen_term} {gbool(exact)} None)"
+
+
+def _render_merge(sc, obs):
+    """a merge whose arguments agree on every supertype, as the history of its definitions (c_merge = Some ok); merges with
+    competing supertypes stay with the oracle (re-parenting is modelled in coq/Merge*.v, C13)"""
+    sc = _merge_view(sc)
+    problem, decl = _merge_plan(sc["merge"], obs["part_out"])
+    if problem or decl is None:
+        return None
+    sups, _ = _merge_declared(decl)
+    if not all(len(v) == 1 for v in sups.values()):
+        return None
+    ops = _merge_linearise(decl)
+    if ops is None:
+        return None
+    names = obs["types"]
+    parts = [
+        glist([gop(o) for o in ops]),
+        "[]",
+        gstrs(names),
+        glist([glist([gof1(r) for r in t]) for t in obs["tables"]]),
+        gstrs(sc["fn"]),
+        glist([glist([gof(r) for r in row]) for row in obs["getf"]]),
+        gstrs(sc["kw"]),
+        glist([gbits(a) for a in obs["accept"]]),
+    ]
+    head = "mkCase " + " ".join(f"({p})" for p in parts)
+    return f"({head} {bridge.g_schema_compact(obs['impl_schema'], names)} None false (Some {gbool(obs['merge'] == 'ok')}))"
 
 
 def nontrivial(sc):
+    if "merge" in sc and sc.get("types"):
+        # one feature name is defined in two different arguments
+        seen = {}
+        for k, part in enumerate(sc["merge"]):
+            for op in part:
+                if op["op"] == "cf":
+                    seen.setdefault(op["n"], set()).add(k)
+        return any(len(v) >= 2 for v in seen.values())
     if "merge" in sc:
         return len(sc["merge"]) >= 2 and all(len(p) >= 2 for p in sc["merge"])
     tree = Tree()
@@ -474,9 +762,13 @@ def distribution(scenarios, observations):
         if o and "out" in o:
             for x in o["out"]:
                 outs[x] = outs.get(x, 0) + 1
-    merges = [o for s, o in zip(scenarios, observations) if o and "merge" in s]
+    merges = [o for s, o in zip(scenarios, observations) if o and "merge" in s and not s.get("types")]
+    hist = [(s, o) for s, o in zip(scenarios, observations) if o and "merge" in s and s.get("types")]
     return {"cases": len(scenarios), "operations": kinds, "outcomes": outs,
             "merged_type_systems": {"ok": sum(1 for o in merges if o["merge"] == "ok"), "refused": sum(1 for o in merges if o["merge"] != "ok")},
+            "merges_as_histories": {"ok": sum(1 for _, o in hist if o["merge"] == "ok"), "refused": sum(1 for _, o in hist if o["merge"] != "ok"),
+                                    "through_json": sum(1 for s, _ in hist if s.get("via") == "json"),
+                                    "with_empty_argument": sum(1 for s, _ in hist if any(not p for p in s["merge"]))},
             "max_history": max(len(s["ops"]) for s in scenarios) if scenarios else 0,
             "tables_observed": sum(len(o["tables"]) for o in observations if o and "tables" in o),
             "constructor_probes": sum(len(o["accept"]) * len(s["kw"]) for s, o in zip(scenarios, observations) if o and "accept" in o),
@@ -488,7 +780,7 @@ def _bridge_distribution(scenarios, observations):
     d = {"histories": 0, "scen_exact(D1-D3)": 0, "scen_as_set(D1,D2)": 0, "outside_scen_domain": 0, "scen_shape_streams": 0,
          "scen_differs_from_impl_order": 0, "types_compared": 0, "max_chain": 0, "max_features": 0}
     for s, o in zip(scenarios, observations):
-        if not o or "impl_schema" not in o:
+        if not o or "impl_schema" not in o or "merge" in s:
             continue
         d["histories"] += 1
         d["scen_shape_streams"] += 1 if s.get("stream") == "scen" else 0
